@@ -51,6 +51,9 @@ class _Continue(Exception):
     pass
 
 
+PRUNE = {'on': False, 'assume': [], 'budget': 3.0, 'cache': {}}
+
+
 class Path:
     def __init__(self, decisions=()):
         self.decisions = list(decisions)
@@ -78,6 +81,23 @@ class Path:
                 return True
             if c.eq(ncond):
                 return False
+        # semantic pruning (contracts with `prune = True`): a side that the precondition and the path condition
+        # exclude is not explored.  Verdicts are cached so that the re-executions of explore() decide alike.
+        if PRUNE['on']:
+            key = (tuple(str(c) for c in self.pc), str(cond))
+            verdict = PRUNE['cache'].get(key)
+            if verdict is None:
+                from . import backend
+                hyps = list(PRUNE['assume']) + list(self.pc) + list(self.extra)
+                verdict = 'both'
+                if backend.check(hyps, cond, PRUNE['budget'], want_model=False)[0] == 'unsat':
+                    verdict = 'false'
+                elif backend.check(hyps, ncond, PRUNE['budget'], want_model=False)[0] == 'unsat':
+                    verdict = 'true'
+                PRUNE['cache'][key] = verdict
+            if verdict != 'both':
+                self.pc.append(cond if verdict == 'true' else ncond)
+                return verdict == 'true'
         if self.i < len(self.decisions):
             d = self.decisions[self.i]
         else:
